@@ -49,6 +49,8 @@ type c06Case struct {
 	// OptDefault: every schema object is created with AreKeysOptionalByDefault, so a member is required only when
 	// it says optional: false
 	OptDefault bool `json:"opt_default,omitempty"`
+	// OptTypes: the same for the type objects (the root and the types may be created in different modes)
+	OptTypes bool `json:"opt_types,omitempty"`
 }
 
 func c06WiringName(c c06Case) string {
@@ -63,8 +65,13 @@ func c06WiringName(c c06Case) string {
 	if c.Wiring == c06WireDeepCopy {
 		w = "types on the root and on every type"
 	}
-	if c.OptDefault {
+	switch {
+	case c.OptDefault && c.OptTypes:
 		w += "; keys optional by default"
+	case c.OptDefault:
+		w += "; keys optional by default in the root only"
+	case c.OptTypes:
+		w += "; keys optional by default in the types only"
 	}
 	return "[" + reg + "; " + w + "]"
 }
@@ -75,7 +82,7 @@ func c06Key(c c06Case) string { return c06WiringName(c) + " " + projectKey(c06Te
 
 // ---- the library side ------------------------------------------------------------
 
-func c06Build(pt project, reg bool, wiring int, optDefault bool) (*jschema.JSchema, error) {
+func c06Build(pt project, reg bool, wiring int, optDefault, optTypes bool) (*jschema.JSchema, error) {
 	name := "root"
 	if reg {
 		name = c06RootName
@@ -89,7 +96,7 @@ func c06Build(pt project, reg bool, wiring int, optDefault bool) (*jschema.JSche
 	var all []named
 	for _, t := range pt.Types {
 		o := jschema.New(t.Name, t.Text)
-		o.AreKeysOptionalByDefault = optDefault
+		o.AreKeysOptionalByDefault = optTypes
 		if err := s.AddType(t.Name, o); err != nil {
 			return nil, fmt.Errorf("AddType(%s): %w", t.Name, err)
 		}
@@ -136,7 +143,7 @@ func c06RunLib(c c06Case) c06Lib {
 	pt := c06Texts(c)
 	out.Stage = "build"
 	out.Panic = mon.Guard(func() {
-		s, err := c06Build(pt, c.Reg, c.Wiring, c.OptDefault)
+		s, err := c06Build(pt, c.Reg, c.Wiring, c.OptDefault, c.OptTypes)
 		if err != nil {
 			out.BuildErr = err.Error()
 			return
@@ -172,8 +179,11 @@ func c06RunLib(c c06Case) c06Lib {
 
 // c06Optional tells whether a member may be left out: it says optional: true, or - with keys optional by default -
 // it does not say optional: false.
+// c06OwnerIsRoot tells the model whether the members it is looking at are written in the root's text.
+var c06OwnerIsRoot bool
+
 func c06Optional(c c06Case, m *gen.Node) bool {
-	if c.OptDefault {
+	if (c06OwnerIsRoot && c.OptDefault) || (!c06OwnerIsRoot && c.OptTypes) {
 		v, ok := m.Rule("optional")
 		return !ok || v.Lit != "false"
 	}
@@ -262,12 +272,14 @@ func c06Reference(c c06Case) c06Ref {
 	for changed := true; changed; {
 		changed = false
 		for _, k := range names {
+			c06OwnerIsRoot = k == c06RootName
 			if !fin[k] && val(types[k]) {
 				fin[k] = true
 				changed = true
 			}
 		}
 	}
+	c06OwnerIsRoot = true
 	out.Finite = val(c.Project.Root)
 
 	// required plain links: members of an object type (not of a nested object)
@@ -298,6 +310,7 @@ func c06Reference(c c06Case) c06Ref {
 		dist := map[string]int{}
 		indeg := map[string]int{}
 		frontier := []string{}
+		c06OwnerIsRoot = true
 		for _, e := range edges(c.Project.Root, nested) {
 			indeg[e]++
 			if _, ok := dist[e]; !ok {
@@ -311,6 +324,7 @@ func c06Reference(c c06Case) c06Ref {
 			if c.Reg && cur == c06RootName {
 				continue // its links are the root's links
 			}
+			c06OwnerIsRoot = false
 			for _, e := range edges(types[cur], nested) {
 				indeg[e]++
 				if _, ok := dist[e]; !ok {
@@ -478,7 +492,7 @@ func c06Clone(c c06Case) c06Case {
 	for _, t := range c.Project.Types {
 		p.Types = append(p.Types, gen.NamedNode{Name: t.Name, Node: c06CloneNode(t.Node)})
 	}
-	return c06Case{Project: p, Reg: c.Reg, Wiring: c.Wiring, OptDefault: c.OptDefault}
+	return c06Case{Project: p, Reg: c.Reg, Wiring: c.Wiring, OptDefault: c.OptDefault, OptTypes: c.OptTypes}
 }
 
 // c06Nodes lists every node of the project in a fixed order.
@@ -1151,7 +1165,15 @@ func (g *c06Gen) setLink(o *gen.Node, v *gen.Node) {
 }
 
 func c06Random(rng *rand.Rand) (c06Case, string) {
-	c := c06Case{Reg: rng.IntN(6) != 0, OptDefault: rng.IntN(6) == 0}
+	c := c06Case{Reg: rng.IntN(6) != 0}
+	switch rng.IntN(12) {
+	case 0:
+		c.OptDefault, c.OptTypes = true, true
+	case 1:
+		c.OptDefault = true
+	case 2:
+		c.OptTypes = true
+	}
 	k := rng.IntN(7) // further types: at most 7 types in all
 	mode := rng.IntN(8)
 	if mode >= 5 {
@@ -1296,6 +1318,28 @@ func c06Random(rng *rand.Rand) (c06Case, string) {
 		}
 	case 4:
 		label = "general, few required links"
+	}
+	if rng.IntN(4) == 0 {
+		// member names that contain each other (a later name inside an earlier one) and the empty name: what a
+		// member is called must not matter
+		names := []string{"items", "item", "parent_id", "parent", "", "ident", "id", "value", "val", "a", "ab"}
+		rename := func(n *gen.Node) {
+			n.Walk(func(o *gen.Node) {
+				if o.Kind != gen.KObject || len(o.Children) > len(names) {
+					return
+				}
+				for i, m := range o.Children {
+					if !m.KeyIsRef {
+						m.K(names[i])
+					}
+				}
+			})
+		}
+		rename(c.Project.Root)
+		for _, t := range c.Project.Types {
+			rename(t.Node)
+		}
+		label += " + names that contain each other"
 	}
 	return c, label
 }
